@@ -38,6 +38,8 @@ import (
 
 const shimPath = "verifsim/simsync"
 
+var clockOnly bool
+
 type edit struct {
 	off, del int
 	text     string
@@ -64,6 +66,7 @@ func main() {
 	dst := flag.String("dst", "", "destination directory (created)")
 	pyield := flag.String("pyield", "", "comma separated relative paths that get statement-level yields")
 	nomaps := flag.Bool("nomaps", false, "leave map iteration alone")
+	flag.BoolVar(&clockOnly, "clockonly", false, "redirect the clock calls of EVERY package and change nothing else (the command-line tool that is run at simulated times)")
 	flag.Parse()
 	if *dst == "" {
 		fail("-dst is required")
@@ -137,7 +140,7 @@ func main() {
 		}
 		return os.Open(f)
 	})
-	rewritten, sites, ranges, iters, atomics := 0, 0, 0, 0, 0
+	rewritten, sites, ranges, iters, atomics, clocks := 0, 0, 0, 0, 0, 0
 	for _, p := range pkgs {
 		var files []*ast.File
 		var names []string
@@ -153,7 +156,7 @@ func main() {
 			files = append(files, f)
 			names = append(names, full)
 		}
-		info := &types.Info{Types: map[ast.Expr]types.TypeAndValue{}}
+		info := &types.Info{Types: map[ast.Expr]types.TypeAndValue{}, Uses: map[*ast.Ident]types.Object{}}
 		conf := types.Config{Importer: imp, Error: func(error) {}}
 		conf.Check(p.ImportPath, fset, files, info)
 		for i, f := range files {
@@ -170,6 +173,7 @@ func main() {
 			ranges += st.ranges
 			iters += st.iters
 			atomics += st.atomics
+			clocks += st.clocks
 		}
 	}
 	// 4. go.mod: require the shim; generics in the inserted helpers need go >= 1.20 (interface keys satisfying comparable)
@@ -192,12 +196,12 @@ func main() {
 	if err := os.WriteFile(gm, data, 0o644); err != nil {
 		fail("%v", err)
 	}
-	fmt.Printf("simrewrite: %d files rewritten, %d yield sites, %d map ranges, %d MapRange calls, %d yields at sync/atomic operations\n", rewritten, sites, ranges, iters, atomics)
+	fmt.Printf("simrewrite: %d files rewritten, %d yield sites, %d map ranges, %d MapRange calls, %d yields at sync/atomic operations, %d clock calls redirected\n", rewritten, sites, ranges, iters, atomics, clocks)
 }
 
 type stats struct {
-	changed                       bool
-	sites, ranges, iters, atomics int
+	changed                               bool
+	sites, ranges, iters, atomics, clocks int
 }
 
 func rewrite(fset *token.FileSet, f *ast.File, info *types.Info, rel string, data []byte, yields, maps bool) ([]byte, stats) {
@@ -206,8 +210,9 @@ func rewrite(fset *token.FileSet, f *ast.File, info *types.Info, rel string, dat
 	off := func(p token.Pos) int { return fset.Position(p).Offset }
 	text := func(a, b token.Pos) string { return string(data[off(a):off(b)]) }
 	needShim := false
+	keepTime := map[string]bool{}
 	for _, im := range f.Imports {
-		if im.Path.Value == `"sync"` {
+		if im.Path.Value == `"sync"` && !clockOnly {
 			t := `"` + shimPath + `"`
 			if im.Name == nil {
 				t = "sync " + t
@@ -217,7 +222,7 @@ func rewrite(fset *token.FileSet, f *ast.File, info *types.Info, rel string, dat
 	}
 	// goroutines started by the LIBRARY could not be scheduled by the simulator; the command-line tool (package main and
 	// package file, which the simulated engines never call) may start as many as it likes: it is checked as a real process
-	if f.Name.Name != "main" && !strings.HasPrefix(rel, "file/") {
+	if f.Name.Name != "main" && !strings.HasPrefix(rel, "file/") && !clockOnly {
 		ast.Inspect(f, func(n ast.Node) bool {
 			if g, ok := n.(*ast.GoStmt); ok {
 				fail("%s:%d: go statement in the library under test; goroutines outside the simulator cannot be scheduled", rel, fset.Position(g.Pos()).Line)
@@ -225,7 +230,41 @@ func rewrite(fset *token.FileSet, f *ast.File, info *types.Info, rel string, dat
 			return true
 		})
 	}
-	if maps {
+	// the clock: time.Now / Since / Until / Sleep become the simulator's (simulated time, decided by the run's plan);
+	// timers and tickers deliver on channels from goroutines of the runtime, which the simulator cannot schedule
+	library := clockOnly || (f.Name.Name != "main" && !strings.HasPrefix(rel, "file/"))
+	ast.Inspect(f, func(n ast.Node) bool {
+		sel, ok := n.(*ast.SelectorExpr)
+		if !ok {
+			return true
+		}
+		id, ok := sel.X.(*ast.Ident)
+		if !ok {
+			return true
+		}
+		pn, ok := info.Uses[id].(*types.PkgName)
+		if !ok || pn.Imported().Path() != "time" {
+			return true
+		}
+		switch sel.Sel.Name {
+		case "Now", "Since", "Until", "Sleep":
+			if library {
+				st.clocks++
+				needShim = true
+				eds = append(eds, edit{off: off(id.Pos()), del: len(id.Name), text: "simshim", prio: 1})
+				if !keepTime[id.Name] {
+					keepTime[id.Name] = true
+					eds = append(eds, edit{off: len(data), text: "\nvar _ " + id.Name + ".Duration\n"})
+				}
+			}
+		case "After", "AfterFunc", "NewTimer", "NewTicker", "Tick":
+			if library && !clockOnly {
+				fail("%s:%d: time.%s in the library under test; timers outside the simulator cannot be scheduled", rel, fset.Position(sel.Pos()).Line, sel.Sel.Name)
+			}
+		}
+		return true
+	})
+	if maps && !clockOnly {
 		n := 0
 		ast.Inspect(f, func(node ast.Node) bool {
 			switch x := node.(type) {
@@ -291,7 +330,7 @@ func rewrite(fset *token.FileSet, f *ast.File, info *types.Info, rel string, dat
 	// scheduling points around sync/atomic operations (every file): a statement that contains a call of a
 	// sync/atomic function or of a method of a sync/atomic type gets an unconditional yield in front of it
 	// (never inside the body of a range statement, never in files that already get statement-level yields)
-	if !yields {
+	if !yields && !clockOnly {
 		atomicNames := map[string]bool{}
 		for _, im := range f.Imports {
 			if im.Path.Value == `"sync/atomic"` {
@@ -399,7 +438,7 @@ func rewrite(fset *token.FileSet, f *ast.File, info *types.Info, rel string, dat
 			}
 		}
 	}
-	if yields {
+	if yields && !clockOnly {
 		var walkList func(list []ast.Stmt)
 		var walkStmt func(s ast.Stmt)
 		walkList = func(list []ast.Stmt) {
